@@ -1,7 +1,7 @@
 (* Property C12 — A transaction keeps its identity across all representations.
    This file holds only the property theorems; proofs are in Proofs_TxSerialize.v.
    H (SHA3-256) and base64 are universally quantified. *)
-From Goloop Require Import lib.Bytes Model_Address Model_TxSerialize Proofs_TxSerialize.
+From Goloop Require Import lib.Bytes Model_Address Model_TxSerialize Proofs_TxSerialize Proofs_TxStruct.
 
 (* the serialisation can be read back: lexing and parsing what serializeValue
    wrote returns the normal form of the tree (keys sorted, leading empty strings
@@ -73,3 +73,36 @@ Print Assumptions C12_equivalences_conv.
 Theorem C12_list_leading_empty : forall l, ser_value (JList (JStr [] :: l)) = ser_value (JList l).
 Proof. exact ser_list_leading_empty. Qed.
 Print Assumptions C12_list_leading_empty.
+
+(* the hash over the parsed fields (binary submissions, and JSON submissions
+   whose two hashes agree): the pre-image determines every signed field; data
+   up to its normal form (and an empty Data counts as the empty string) *)
+Theorem C12_struct_injective : forall f1 f2 p,
+  addr_ok (t_from f1) = true -> addr_ok (t_from f2) = true ->
+  addr_ok (t_to f1) = true -> addr_ok (t_to f2) = true ->
+  data_icon (t_data f1) = true -> data_icon (t_data f2) = true ->
+  pre_struct f1 = Some p -> pre_struct f2 = Some p -> same_signed f1 f2.
+Proof. exact pre_struct_inj. Qed.
+Print Assumptions C12_struct_injective.
+
+Theorem C12_struct_normal_form : forall f1 f2,
+  data_icon (t_data f1) = true -> data_icon (t_data f2) = true ->
+  same_signed f1 f2 -> pre_struct f1 = pre_struct f2.
+Proof. exact same_signed_same_pre. Qed.
+Print Assumptions C12_struct_normal_form.
+
+Theorem C12_struct_equivalences : forall (H : bytes -> bytes) f1 f2 p1 p2,
+  addr_ok (t_from f1) = true -> addr_ok (t_from f2) = true ->
+  addr_ok (t_to f1) = true -> addr_ok (t_to f2) = true ->
+  data_icon (t_data f1) = true -> data_icon (t_data f2) = true ->
+  pre_struct f1 = Some p1 -> pre_struct f2 = Some p2 ->
+  id_struct H f1 = id_struct H f2 -> same_signed f1 f2 \/ collision H.
+Proof. exact struct_same_id. Qed.
+Print Assumptions C12_struct_equivalences.
+
+(* the canonical text of every integer is read back as that integer: texts
+   that differ from it (upper case, leading zeros) are other spellings of the
+   same value and hash differently in a JSON submission (ex_hex_case_differs) *)
+Theorem C12_canonical_int_text : forall z, parse_hexint (fmt_z z) = Some z.
+Proof. exact parse_fmt_z. Qed.
+Print Assumptions C12_canonical_int_text.
